@@ -1196,9 +1196,10 @@ class MeshRegion:
                 )
 
             # calculate curl on x-y grid
+            # Note: Bpxy carries the sign of Bp along y (it is negative when bpsign is
+            # negative), as does J = hy/Bpxy, so no extra factor of bpsign is needed here
             self.curl_bOverB_x = (
                 -2.0
-                * self.bpsign
                 * self.Bpxy
                 * self.Btxy
                 * self.Rxy
@@ -1206,7 +1207,7 @@ class MeshRegion:
                 * self.DDY("#Bxy")
             )
             self.curl_bOverB_y = (
-                -self.bpsign * self.Bpxy / self.hy * self.DDX("#Btxy*#Rxy/#Bxy**2")
+                -self.Bpxy / self.hy * self.DDX("#Btxy*#Rxy/#Bxy**2")
             )
             self.curl_bOverB_z = (
                 self.Bpxy**3 / (self.hy * self.Bxy**2) * self.DDX("#hy/#Bpxy")
